@@ -108,7 +108,7 @@ func devMain(args []string) {
 		go func(o *Obligation) {
 			defer wg.Done()
 			o.Query = o.BuildQuery()
-			r := runSMT(work, o.Name, o.Query, *timeout, 0, nil)
+			r := discharge(work, o.Name, o.Query, *timeout, 0)
 			o.Result = &r
 		}(o)
 	}
